@@ -749,12 +749,20 @@ fn expand_aliases(ctx: &Context, name: &str) -> (String, String) {
     let mut name = name.to_owned();
     let mut canon = ctx.canonicalize(&name).unwrap_or_else(|| name.clone());
 
+    // `definitions` can hold an alias that leads back to itself (a name
+    // redefined by a later load as an alias of its own alias): a walk
+    // longer than the number of definitions has gone round.
+    let mut steps = 0;
     while let Some(&Expr::Unit { name: ref unit }) = {
         ctx.registry
             .definitions
             .get(&name)
             .or_else(|| ctx.registry.definitions.get(&*canon))
     } {
+        steps += 1;
+        if steps > ctx.registry.definitions.len() {
+            break;
+        }
         if ctx.registry.base_units.contains(&*name) {
             break;
         }
@@ -769,18 +777,21 @@ fn expand_aliases(ctx: &Context, name: &str) -> (String, String) {
                 if !ctx.registry.base_units.contains(&**unit) {
                     break;
                 } else {
-                    assert!(name != *unit || canon != unit_canon);
                     name = unit.clone();
                     canon = unit_canon;
                     break;
                 }
             } else {
-                assert!(name != unit_canon || canon != unit_canon);
+                if name == unit_canon && canon == unit_canon {
+                    break;
+                }
                 name = unit_canon.clone();
                 canon = unit_canon;
             }
         } else {
-            assert!(name != *unit || canon != unit_canon);
+            if name == *unit && canon == unit_canon {
+                break;
+            }
             name = unit.clone();
             canon = unit_canon.clone();
         }
